@@ -29,7 +29,9 @@ type c05sink struct {
 func (s *c05sink) Write(p []byte) (int, error) {
 	s.calls++
 	if s.calls == s.failAt {
-		return 0, errC05Sink
+		// an io.Writer may report any count beside its error: none, some, or all of the bytes
+		// (data stored, commit failed); the error is what decides
+		return []int{0, len(p) / 2, len(p)}[(s.failAt+len(p))%3], errC05Sink
 	}
 	s.got = true
 	s.last = append([]byte(nil), p...)
